@@ -358,3 +358,35 @@ def private_helper_of(F, fn, owners, depth=3):
         if not frontier:
             return serves or None
     return None
+
+
+def serde_skip_inverse(rule, F, ty, reviewed=None):
+    """Every `skip_serializing_if = "P"` of `ty` omits exactly the value the deserialiser restores for a missing member:
+    Option fields with P = Option::is_none, collection fields with P = <T>::is_empty and #[serde(default)].
+    A predicate outside these shapes (one that also skips Some(false), 0, …) loses information in a round trip."""
+    a = F.ast_item(ty)
+    if not rule.anchor(a, ty + " (ast)"):
+        return 0
+    n = 0
+    for f in a.get("fields", []):
+        attrs = " ".join(f["attrs"])
+        m = re.search(r'skip_serializing_if\s*=\s*"([^"]+)"', attrs)
+        if not m:
+            if re.search(r"\bskip_serializing\b", attrs):
+                rule.require("default" in attrs or f["ty"].replace(" ", "").startswith("Option<"), (ty, f["name"], "skip-without-default"), "%s.%s is never serialised but has no default" % (short(ty), f["name"]))
+            continue
+        n += 1
+        pred = m.group(1).replace(" ", "")
+        fty = f["ty"].replace(" ", "")
+        rule.site("%s.%s: %s skip_serializing_if = %s" % (short(ty), f["name"], f["ty"], pred), f.get("span"))
+        if reviewed and (ty, f["name"]) in reviewed:
+            rule.exception("%s.%s" % (ty, f["name"]), "reviewed", reviewed[(ty, f["name"])])
+            continue
+        if fty.startswith("Option<"):
+            ok = pred == "Option::is_none"
+            rule.require(ok, (ty, f["name"], "skip-predicate"), "%s.%s (an Option) is skipped by `%s`, not `Option::is_none`: a present value the predicate also skips (Some(false), Some(0), …) comes back as None" % (short(ty), f["name"], pred))
+        else:
+            ok = pred.endswith("::is_empty") and "default" in attrs
+            rule.require(ok, (ty, f["name"], "skip-without-default") if "default" not in attrs else (ty, f["name"], "skip-predicate"),
+                         "%s.%s is skipped by `%s`%s: only an empty collection with #[serde(default)] is restored unchanged" % (short(ty), f["name"], pred, "" if "default" in attrs else " without #[serde(default)]"))
+    return n
